@@ -23,6 +23,7 @@ Interp(ev, k, f) == IF ev.ste = 1 THEN Ste32f(ev.ys[k], ev.yq[k], f) ELSE Mix32(
 \* the documented unquantized activation: identity, or the (leaky, bounded) ReLU  [sk, sl, hasb, b in the event]
 Surr(ev, k) == LET x == ev.x[k] IN
   IF ev.sk = "id" THEN Norm(x)
+  ELSE IF ev.sk = "ref" THEN Norm(ev.sr[k])        \* an activation whose float32 value the harness recomputed independently
   ELSE IF x[1] < 0 THEN (IF ev.sl = 0 THEN Zero ELSE Scale2(Norm(x), -ev.sl))
   ELSE IF ev.hasb = 1 /\ Less(ev.b, x) THEN Norm(ev.b) ELSE Norm(x)
 CallClauses(s, ev) ==
